@@ -121,3 +121,10 @@ package trusted
 //@ trusted func math/bits.Len64
 //@   pure
 //@   ensures def: (x == 0 ==> r0 == 0) && (x != 0 ==> 1 <= r0 && r0 <= 64 && x>>uint(r0-1) == 1)
+
+// sync.Pool: Get hands out an arbitrary value (possibly built by the pool's New function, which in this module only
+// allocates), Put retains its argument; neither writes memory the caller can observe.
+//@ trusted func (*sync.Pool).Get
+//@   assigns internal
+//@ trusted func (*sync.Pool).Put
+//@   assigns internal
